@@ -378,7 +378,7 @@ def mpz_ui_pow_ui (b e : Nat) : Int := n_pow_ui false (natLimbs b) e
 inductive Res where
   | div0
   | mk (rp : List Nat) (rn : Nat)
-  deriving Repr, BEq
+  deriving Repr, BEq, DecidableEq
 
 /-- what `PTR(r)[0..SIZ(r))` holds. -/
 def Res.limbs : Res → List Nat
@@ -462,6 +462,15 @@ def powmMain (bneg : Bool) (bp ep mp : List Nat) : List Nat × Nat :=
     (rp, mpnNormalize rp n)
   else (rp, rn)
 
+/-- powm.c:104-151 and 279-284: after the exponent's sign is dealt with.  `bneg`/`bp` = SIZ(b) < 0 / limbs of |b|. -/
+def powmGo (ep mp : List Nat) (bneg : Bool) (bp : List Nat) : Res :=
+  if bp.length = 0 then .mk [] 0                              -- if (bn == 0) SIZ(r) = 0
+  else
+    let p :=
+      if ep.length = 1 && ep.headD 0 = 1 then powmE1 bneg bp mp
+      else powmMain bneg bp ep mp
+    .mk p.1 p.2                                               -- MPZ_REALLOC (r, rn); SIZ(r) = rn; MPN_COPY
+
 /-- mpz_powm (r, b, e, m). -/
 def mpz_powm (b e m : Int) : Res :=
   let mp := natLimbs m.natAbs
@@ -472,19 +481,11 @@ def mpz_powm (b e m : Int) : Res :=
     if e = 0 then
       -- SIZ(r) = n != 1 || mp[0] != 1;  PTR(r)[0] = 1;
       .mk [1] (if n != 1 || mp.headD 0 != 1 then 1 else 0)
-    else
-      let go (bneg : Bool) (bp : List Nat) : Res :=
-        if bp.length = 0 then .mk [] 0                        -- SIZ(r) = 0
-        else
-          let (rp, rn) :=
-            if ep.length = 1 && ep.headD 0 = 1 then powmE1 bneg bp mp
-            else powmMain bneg bp ep mp
-          .mk rp rn                                           -- MPZ_REALLOC (r, rn); SIZ(r) = rn; MPN_COPY
-      if e < 0 then
-        match mpz_invert b m with
-        | none => .div0                                       -- if (! mpz_invert (new_b, b, m)) DIVIDE_BY_ZERO
-        | some nb => go false (natLimbs nb)
-      else go (decide (b < 0)) (natLimbs b.natAbs)
+    else if e < 0 then
+      match mpz_invert b m with
+      | none => .div0                                         -- if (! mpz_invert (new_b, b, m)) DIVIDE_BY_ZERO
+      | some nb => powmGo ep mp false (natLimbs nb)           -- b = new_b
+    else powmGo ep mp (decide (b < 0)) (natLimbs b.natAbs)
 
 /-! ## mpz_powm_ui -/
 
